@@ -901,5 +901,26 @@ theorem apply_wf (cfg : Cfg) (ds : Dists D) (hR : 1 ≤ cfg.degreeBound) (ord : 
       have hik := ((hlv i).mpr (Or.inr hi)).1
       exact hmax i hik (fun e => hle (e ▸ hi))
 
+/-- (alias used by C03) -/
+theorem C10_step_aux (cfg : Cfg) (hR : 1 ≤ cfg.degreeBound) (ds : Dists D) (ord : List Id) (g g' : Graph) (L : List Id)
+    (batch : List Change) (hWF : WF cfg.degreeBound g L) (h : apply cfg ds ord g batch = .ok g') :
+    WF cfg.degreeBound g' (liveAfter L batch) :=
+  apply_wf cfg ds hR ord g g' L batch hWF h
+
+theorem C10_history_aux (cfg : Cfg) (hR : 1 ≤ cfg.degreeBound) (steps : List (Step D)) :
+    WF cfg.degreeBound (run cfg steps (Graph.init, [])).1 (run cfg steps (Graph.init, [])).2 := by
+  have hinit : WF cfg.degreeBound Graph.init [] := by
+    unfold WF wfB Graph.init Graph.keys; simp [nodupB, entry]
+  generalize Graph.init = g at hinit ⊢
+  generalize ([] : List Id) = L at hinit ⊢
+  induction steps generalizing g L with
+  | nil => exact hinit
+  | cons st rest ih =>
+    unfold run
+    split
+    · exact ih g L hinit
+    · rename_i g' hg'
+      exact ih g' _ (C10_step_aux cfg hR st.ds st.ord g g' L st.batch hinit hg')
+
 end
 end Sema.C10
